@@ -193,36 +193,72 @@ theorem valid_blakeP {c V} (hp : Pair c V) : Valid (Padder.blakeP c.size) := by
 theorem block_eq {c V} (hp : Pair c V) : (Padder.blakeP c.size).blocksize = V.block := by
   rcases hp with ⟨rfl, rfl⟩ | ⟨rfl, rfl⟩ | ⟨rfl, rfl⟩ | ⟨rfl, rfl⟩ <;> rfl
 
-/-- the fold of the submission's compression function over the yielded blocks is the submission's `finish` on the
-    first L bits of the message, for every chain value and salt -/
-theorem fold_eq_finish {c V} (hp : Pair c V) (M : List Nat) (hM : Bytes M) (bitlen : Option Nat)
+/-- the pad bits `lastblock` appends for the `blake` scheme after `done + k·B` counted bits and r bits in the last piece
+    are the submission's padding of a message of done + k·B + r bits (done a whole number of blocks) -/
+theorem tail_eq {c V} (hp : Pair c V) (done k r : Nat) (hd : done % (Padder.blakeP c.size).blocksize = 0)
+    (hr : r ≤ (Padder.blakeP c.size).blocksize) :
+    modelTail (Padder.blakeP c.size) (done + k * (Padder.blakeP c.size).blocksize) r
+      = Spec.Blake.padding V (done + (k * (Padder.blakeP c.size).blocksize + r)) := by
+  rcases hp with ⟨rfl, rfl⟩ | ⟨rfl, rfl⟩ | ⟨rfl, rfl⟩ | ⟨rfl, rfl⟩ <;>
+    (simp only [modelTail, Padder.blakeP, Padder.blakeW, Spec.Blake.padding, natBits_eq, zeros, mdN,
+      Spec.Blake.Variant.block, Spec.Blake.blake224, Spec.Blake.blake256, Spec.Blake.blake384, Spec.Blake.blake512,
+      Blake.blake224, Blake.blake256, Blake.blake384, Blake.blake512, gt_iff_lt, Nat.reduceLT, Nat.reduceMul,
+      ↓reduceIte] at hd hr ⊢
+     simp only [Nat.add_assoc, List.cons_append, List.nil_append, List.append_assoc]
+     congr 2
+     congr 1
+     split <;> omega)
+
+/-- the fold of the submission's compression function over the blocks yielded by a final call on an object that has
+    absorbed `st.bitcnt` bits (whole blocks) is the submission's `finish` continued from there on the first L bits of
+    the message, for every chain value and salt -/
+theorem fold_eq_finish_from {c V} (hp : Pair c V) (st : PadState) (hpf : st.padflag = false)
+    (hdone : st.bitcnt % (Padder.blakeP c.size).blocksize = 0) (M : List Nat) (hM : Bytes M) (bitlen : Option Nat)
     (hL : bitlen.getD (8 * M.length) ≤ 8 * M.length) (H s : List (BitVec V.w)) :
-    ((Padder.blakeP c.size).iterblocks {} M bitlen true).yields.foldl
+    ((Padder.blakeP c.size).iterblocks st M bitlen true).yields.foldl
         (fun h (y : List Nat × PadState) => Spec.Blake.compress V h (beWords V y.1) s y.2.bitcnt) H
-      = Spec.Blake.finish V H s 0 (Spec.Blake.msgBits M (bitlen.getD (8 * M.length))) := by
+      = Spec.Blake.finish V H s st.bitcnt (Spec.Blake.msgBits M (bitlen.getD (8 * M.length))) := by
   obtain ⟨hw, hgeo, hbl, hsz, _⟩ := pair_geo hp
   have hv := valid_blakeP hp
   have hL' : effLen M bitlen ≤ 8 * M.length := hL
   have hbg : bitlen ≠ none → BitGranular (Padder.blakeP c.size).scheme := fun _ => trivial
-  obtain ⟨_, hcat⟩ := Proofs.C09.blocks_concat _ hv {} rfl rfl M hM bitlen hL' hbg
-  have hbytes := Proofs.C09.blocks_bytes _ hv {} rfl M hM bitlen hL' hbg
-  have hcnt := Proofs.C09.bitcnt_at_yield _ hv {} rfl M hM bitlen hL' hbg
-  have hlen : ∀ y ∈ ((Padder.blakeP c.size).iterblocks {} M bitlen true).yields,
+  obtain ⟨_, hcat, _⟩ := run_facts _ hv st hpf M hM bitlen hL' hbg
+  have hbytes := Proofs.C09.blocks_bytes _ hv st hpf M hM bitlen hL' hbg
+  have hcnt := Proofs.C09.bitcnt_at_yield _ hv st hpf M hM bitlen hL' hbg
+  have hlen : ∀ y ∈ ((Padder.blakeP c.size).iterblocks st M bitlen true).yields,
       y.1.length = (Padder.blakeP c.size).blocksize / 8 :=
-    BlakeTrace.blake_yields_blocklen c.size (Padder.blakeP c.size).blocksize (Padder.blakeW c.size) hgeo rfl {} rfl M bitlen _ rfl hL
-  generalize hys : ((Padder.blakeP c.size).iterblocks {} M bitlen true).yields = ys at hcat hbytes hcnt hlen ⊢
+    BlakeTrace.blake_yields_blocklen c.size (Padder.blakeP c.size).blocksize (Padder.blakeW c.size) hgeo rfl st hpf M bitlen _ rfl hL
+  generalize hys : ((Padder.blakeP c.size).iterblocks st M bitlen true).yields = ys at hcat hbytes hcnt hlen ⊢
+  obtain ⟨e, h1, h2, h3, h4, h5, h6⟩ := piece_facts (Padder.blakeP c.size) hv M _ hL'
   -- the bit string
   have hbitsLen : (Spec.Blake.msgBits M (bitlen.getD (8 * M.length))).length = bitlen.getD (8 * M.length) := by
     rw [msgBits_eq, takeBits, List.length_take, bytesToBits_length]
     exact Nat.min_eq_left hL
-  have hX : Spec.Blake.msgBits M (bitlen.getD (8 * M.length)) ++ Spec.Blake.padding V (bitlen.getD (8 * M.length))
-      = ((ys.map (·.1)).map bytesToBits).flatten := by
-    have h1 := padding_eq hp (Spec.Blake.msgBits M (bitlen.getD (8 * M.length)))
-    rw [hbitsLen] at h1
-    rw [h1, ← bytesToBits_flatten, hcat]
-    show _ = bytesToBits (bitsToBytes (Spec.Padding.pad (.blake c.size) _ (takeBits (effLen M bitlen) M)))
-    rw [bytesToBits_bitsToBytes _ (pad_length_mod8 hp _)]
+  have hLsplit : effLen M bitlen = kOf (Padder.blakeP c.size) M bitlen * (Padder.blakeP c.size).blocksize
+      + rOf (Padder.blakeP c.size) M bitlen := by simp only [rOf, kOf]; omega
+  have hcat2 : (ys.map (·.1)).flatten = bitsToBytes (Spec.Blake.msgBits M (bitlen.getD (8 * M.length))
+      ++ Spec.Blake.padding V (st.bitcnt + bitlen.getD (8 * M.length))) := by
+    have hsplit := takeBits_split (Padder.blakeP c.size) hv M _ hL'
+    have ht := tail_eq hp st.bitcnt (kOf (Padder.blakeP c.size) M bitlen) (rOf (Padder.blakeP c.size) M bitlen) hdone h2
+    rw [← hLsplit] at ht
+    rw [hcat, msgBits_eq]
+    show _ = bitsToBytes (takeBits (effLen M bitlen) M ++ Spec.Blake.padding V (st.bitcnt + effLen M bitlen))
+    rw [← ht, hsplit, List.append_assoc, bitsToBytes_bytesToBits_append _ (Bytes_take hM _)]
     rfl
+  have hmod8 : (Spec.Blake.msgBits M (bitlen.getD (8 * M.length))
+      ++ Spec.Blake.padding V (st.bitcnt + bitlen.getD (8 * M.length))).length % 8 = 0 := by
+    have hb8 : 8 * (ys.map (·.1)).flatten.length % 8 = 0 := Nat.mul_mod_right _ _
+    rw [List.length_append, hbitsLen]
+    have hd' := hdone
+    clear hcat hcat2 hbytes hcnt hlen hys
+    rcases hp with ⟨rfl, rfl⟩ | ⟨rfl, rfl⟩ | ⟨rfl, rfl⟩ | ⟨rfl, rfl⟩ <;>
+      (simp [Spec.Blake.padding, Spec.Blake.natBits, Spec.Blake.Variant.block, Spec.Blake.blake224, Spec.Blake.blake256,
+        Spec.Blake.blake384, Spec.Blake.blake512, Padder.blakeP, Blake.blake224, Blake.blake256, Blake.blake384,
+        Blake.blake512] at hd' ⊢
+       omega)
+  have hX : Spec.Blake.msgBits M (bitlen.getD (8 * M.length)) ++ Spec.Blake.padding V (st.bitcnt + bitlen.getD (8 * M.length))
+      = ((ys.map (·.1)).map bytesToBits).flatten := by
+    rw [← bytesToBits_flatten, hcat2, bytesToBits_bitsToBytes _ hmod8]
   have hBpos : 0 < V.block := by rw [← block_eq hp]; exact hv.pos
   have hchunk : Spec.Blake.chunk V.block (((ys.map (·.1)).map bytesToBits).flatten) = (ys.map (·.1)).map bytesToBits := by
     apply chunk_blocks _ hBpos
@@ -234,7 +270,7 @@ theorem fold_eq_finish {c V} (hp : Pair c V) (M : List Nat) (hM : Bytes M) (bitl
     have := hv.mul8
     omega
   unfold Spec.Blake.finish
-  simp only [Nat.zero_add, hbitsLen]
+  simp only [hbitsLen]
   rw [hX, hchunk]
   -- both folds run over the same list of (words, counter) pairs
   have e1 : ∀ (l : List (List Nat × PadState)),
@@ -243,8 +279,8 @@ theorem fold_eq_finish {c V} (hp : Pair c V) (M : List Nat) (hM : Bytes M) (bitl
     intro l; rw [List.foldl_map]
   have e2 : ∀ (l : List (List Bool × Nat)),
       l.foldl (fun h (bi : List Bool × Nat) => Spec.Blake.compress V h (Spec.Blake.blockWords V bi.1) s
-        (Spec.Blake.counter V 0 (bitlen.getD (8 * M.length)) bi.2)) H
-      = (l.map fun bi => (Spec.Blake.blockWords V bi.1, Spec.Blake.counter V 0 (bitlen.getD (8 * M.length)) bi.2)).foldl
+        (Spec.Blake.counter V st.bitcnt (bitlen.getD (8 * M.length)) bi.2)) H
+      = (l.map fun bi => (Spec.Blake.blockWords V bi.1, Spec.Blake.counter V st.bitcnt (bitlen.getD (8 * M.length)) bi.2)).foldl
           (fun h (p : List (BitVec V.w) × Nat) => Spec.Blake.compress V h p.1 s p.2) H := by
     intro l; rw [List.foldl_map]
   rw [e1, e2]
@@ -265,5 +301,34 @@ theorem fold_eq_finish {c V} (hp : Pair c V) (M : List Nat) (hM : Bytes M) (bitl
     rw [hcnt i h1]
     simp only [Spec.Blake.counter, ← block_eq hp, effLen]
     rfl
+
+/-- the one-shot case: a fresh object -/
+theorem fold_eq_finish {c V} (hp : Pair c V) (M : List Nat) (hM : Bytes M) (bitlen : Option Nat)
+    (hL : bitlen.getD (8 * M.length) ≤ 8 * M.length) (H s : List (BitVec V.w)) :
+    ((Padder.blakeP c.size).iterblocks {} M bitlen true).yields.foldl
+        (fun h (y : List Nat × PadState) => Spec.Blake.compress V h (beWords V y.1) s y.2.bitcnt) H
+      = Spec.Blake.finish V H s 0 (Spec.Blake.msgBits M (bitlen.getD (8 * M.length))) :=
+  fold_eq_finish_from hp {} rfl (Nat.zero_mod _) M hM bitlen hL H s
+
+/-- a final `update(M,bitlen,padding=True)` on an object that holds the chain value `H` and salt words `sw` and has
+    absorbed `st.bitcnt` bits (whole blocks, any number) returns the submission's output of `finish` continued from there -/
+theorem blake_update_final {c V} (hp : Pair c V) (H sw : List (BitVec V.w)) (hH : H.length = 8) (hs : sw.length = 4)
+    (st : PadState) (hpf : st.padflag = false) (hdone : st.bitcnt % (Padder.blakeP c.size).blocksize = 0)
+    (M : List Nat) (hM : Bytes M) (bitlen : Option Nat) (hL : bitlen.getD (8 * M.length) ≤ 8 * M.length) :
+    (Blake.update c ⟨H.map BlakeWords.ofBV, sw.map BlakeWords.ofBV, st⟩ M bitlen true).2
+      = .ok (Spec.Blake.output V (Spec.Blake.finish V H sw st.bitcnt (Spec.Blake.msgBits M (bitlen.getD (8 * M.length))))) := by
+  have hm := pair_match hp
+  obtain ⟨hw, hgeo, hbl, hsz, _⟩ := pair_geo hp
+  have hw8 : V.w % 8 = 0 := by rcases hw with h | h <;> rw [h]
+  have hcore := BlakeTrace.blake_yields_core c.size (Padder.blakeP c.size).blocksize (Padder.blakeW c.size) hgeo rfl st hpf M bitlen _ rfl hL
+  have hlen := BlakeTrace.blake_yields_blocklen c.size (Padder.blakeP c.size).blocksize (Padder.blakeW c.size) hgeo rfl st hpf M bitlen _ rfl hL
+  unfold Blake.update
+  simp only []
+  have herr : ((Padder.blakeP c.size).iterblocks st M bitlen true).err = none := hcore.1
+  rw [herr]
+  simp only [hm.w]
+  obtain ⟨hf, _⟩ := fold_refines hp sw hs
+    ((Padder.blakeP c.size).iterblocks st M bitlen true).yields (fun y hy => by rw [← hbl]; exact hlen y hy) H hH
+  rw [hf, digest_eq hm hw8, fold_eq_finish_from hp st hpf hdone M hM bitlen hL]
 
 end Proofs.Lemmas.BlakeFull
